@@ -11,15 +11,17 @@
 (***************************************************************************)
 EXTENDS Naturals, Sequences, FiniteSets, TLC
 
-CONSTANTS Subs, RenameFirst
+CONSTANTS Subs, RenameFirst,
+          CheckLineLength     \* TRUE: a line gpg would truncate when signing is refused (F51); FALSE = historical
 
 SignOpts == {"unset", "on", "off"}
 
 VARIABLES signOpt, wasSigned, keyUsable, renameTop,   \* configuration
+          signable,           \* no line of the top-level text is longer than gpg signs intact
           topName,            \* what the loader believes the top-level file is called
           files,              \* name -> "signed" | "plain" | "absent"  (on disk)
           queue, pc, outcome
-vars == <<signOpt, wasSigned, keyUsable, renameTop, topName, files, queue, pc, outcome>>
+vars == <<signOpt, wasSigned, keyUsable, renameTop, signable, topName, files, queue, pc, outcome>>
 
 Names == {"top", "top2"} \cup Subs          \* "top2": the top-level file under its new name
 
@@ -27,6 +29,7 @@ Want == signOpt = "on" \/ (signOpt = "unset" /\ wasSigned)
 
 Init ==
     /\ signOpt \in SignOpts /\ wasSigned \in BOOLEAN /\ keyUsable \in BOOLEAN /\ renameTop \in BOOLEAN
+    /\ signable \in BOOLEAN /\ (wasSigned => signable)      \* (a text with such a line cannot have been loaded as signed)
     /\ topName = "top"
     /\ files = [n \in Names |-> IF n = "top" THEN (IF wasSigned THEN "signed" ELSE "plain")
                                 ELSE IF n = "top2" THEN "absent" ELSE "plain"]
@@ -37,16 +40,18 @@ Init ==
 Dump(name) ==
     LET sign == IF name = topName THEN Want ELSE FALSE IN
     IF sign /\ ~keyUsable THEN [ok |-> FALSE, kind |-> "absent"]
-    ELSE [ok |-> TRUE, kind |-> IF sign THEN "signed" ELSE "plain"]
+    ELSE IF sign /\ ~signable /\ CheckLineLength THEN [ok |-> FALSE, kind |-> "absent"]
+    ELSE [ok |-> TRUE, kind |-> IF sign THEN (IF signable THEN "signed" ELSE "garbled") ELSE "plain"]
+         \* "garbled": gpg exits 0 but has cut the over-long line: the signed text is not the entries
 
 SaveSub ==      \* sub-Manifests first (deepest directories first)
     /\ pc = "subs" /\ queue # <<>>
     /\ files' = [files EXCEPT ![Head(queue)] = Dump(Head(queue)).kind]
     /\ queue' = Tail(queue)
-    /\ UNCHANGED <<signOpt, wasSigned, keyUsable, renameTop, topName, pc, outcome>>
+    /\ UNCHANGED <<signOpt, wasSigned, keyUsable, renameTop, signable, topName, pc, outcome>>
 
 SubsDone == /\ pc = "subs" /\ queue = <<>> /\ pc' = "top"
-            /\ UNCHANGED <<signOpt, wasSigned, keyUsable, renameTop, topName, files, queue, outcome>>
+            /\ UNCHANGED <<signOpt, wasSigned, keyUsable, renameTop, signable, topName, files, queue, outcome>>
 
 SaveTop ==
     /\ pc = "top"
@@ -56,7 +61,7 @@ SaveTop ==
             /\ pc' = IF renameTop THEN "rename" ELSE "done"
             /\ outcome' = IF renameTop THEN outcome ELSE "ok"
             /\ UNCHANGED topName
-    /\ UNCHANGED <<signOpt, wasSigned, keyUsable, renameTop, queue>>
+    /\ UNCHANGED <<signOpt, wasSigned, keyUsable, renameTop, signable, queue>>
 
 (* the top-level file changes its name (Manifest.gz -> Manifest): written again under the new  *)
 (* name, old file unlinked                                                                     *)
@@ -64,12 +69,13 @@ RenameTop ==
     /\ pc = "rename"
     /\ LET nameSeen == IF RenameFirst THEN "top2" ELSE topName      \* what the loader calls top-level
            sign == IF "top2" = nameSeen THEN Want ELSE FALSE
-       IN IF sign /\ ~keyUsable
+       IN IF sign /\ (~keyUsable \/ (~signable /\ CheckLineLength))
           THEN /\ outcome' = "signingfailure" /\ UNCHANGED files
-          ELSE /\ files' = [files EXCEPT !["top2"] = IF sign THEN "signed" ELSE "plain", !["top"] = "absent"]
+          ELSE /\ files' = [files EXCEPT !["top2"] = IF sign THEN (IF signable THEN "signed" ELSE "garbled") ELSE "plain",
+                                         !["top"] = "absent"]
                /\ outcome' = "ok"
     /\ topName' = "top2" /\ pc' = "done"
-    /\ UNCHANGED <<signOpt, wasSigned, keyUsable, renameTop, queue>>
+    /\ UNCHANGED <<signOpt, wasSigned, keyUsable, renameTop, signable, queue>>
 
 Next == SaveSub \/ SubsDone \/ SaveTop \/ RenameTop
 Spec == Init /\ [][Next]_vars
@@ -78,6 +84,7 @@ TopFile == IF files["top2"] # "absent" THEN files["top2"] ELSE files["top"]
 
 SignedIffWanted == (pc = "done" /\ outcome = "ok") => ((TopFile = "signed") <=> Want)
 SubsNeverSigned == \A n \in Subs : files[n] # "signed"
-FailureReported == (pc = "done" /\ Want /\ ~keyUsable) => outcome = "signingfailure"
-NoSpuriousFailure == (pc = "done" /\ (~Want \/ keyUsable)) => outcome = "ok"
+SignedOverEntries == (pc = "done" /\ outcome = "ok") => TopFile # "garbled"
+FailureReported == (pc = "done" /\ Want /\ (~keyUsable \/ ~signable)) => outcome = "signingfailure"
+NoSpuriousFailure == (pc = "done" /\ (~Want \/ (keyUsable /\ signable))) => outcome = "ok"
 =============================================================================
